@@ -5,8 +5,8 @@
    single-file / package-folder forms are library behaviour (zipfile, os): both reduce to the list of members the
    store is filled from, which is where [member_order_irrelevant] starts. *)
 From Coq Require Import ZArith NArith List Bool Permutation Sorted.
-From NP Require Import Model.PyBase Model.Assoc Model.DataList Model.TileCodec Model.RowMap Model.ObjStore
-  Proofs.AssocP Proofs.DataListPermP Proofs.OffsetsP Proofs.RowMapP Proofs.ObjStoreP.
+From NP Require Import Gen.GenConsts Model.PyBase Model.Assoc Model.DataList Model.TileCodec Model.RowMap Model.ObjStore
+  Proofs.AssocP Proofs.DataListPermP Proofs.OffsetsP Proofs.RowMapP Proofs.RowMapWriterP Proofs.ObjStoreP.
 Import ListNotations.
 
 (* ---------- lookup lists (strings, formats, styles, formulas, rich text ...): DataLists.add_table (repaired) ---------- *)
@@ -119,6 +119,27 @@ Theorem row_map_pinned_partial : forall t, concat (hdrs t) = map fst (stored_row
   forall row col, storage_buffer_pinned t row col = storage_buffer t row col.
 Proof. exact row_map_pinned_agrees_lemma. Qed.
 Print Assumptions row_map_pinned_partial.
+
+(* the layout the library itself writes (and every fixture but one uses): rowInfos in row order, one per row.  Reading
+   by declared index is then reading by position ... *)
+Theorem row_map_sequential : forall t n, map fst (stored_rows t) = map N.of_nat (seq 0 n) ->
+  forall r col, (N.of_nat r < nrows t)%N ->
+  storage_buffer t (N.of_nat r) col = Ok (cell_at (nth_error (storage_buffers t) r) col).
+Proof. exact row_map_sequential_lemma. Qed.
+Print Assumptions row_map_sequential.
+
+(* ... so C01's storage round trip (stated on the concatenation of the written tiles) is what the repaired reader
+   returns for a table written by TileCodec.encode_table - any number of rows, tiles of 256 *)
+Theorem written_table_read : forall rows ts nc h, encode_table rows = Ok ts ->
+  forall r col, (r < length rows)%nat ->
+  storage_buffer (written_table (N.of_nat (length rows)) nc h ts) (N.of_nat r) col =
+  Ok (cell_at (nth_error (decode_table nc ts) r) col).
+Proof. exact written_table_read_lemma. Qed.
+Print Assumptions written_table_read.
+
+Theorem default_tile_size_is_source_constant : GenConsts.DEFAULT_TILE_SIZE = Z.of_N RowMap.DEFAULT_TILE_SIZE.
+Proof. reflexivity. Qed.
+Print Assumptions default_tile_size_is_source_constant.
 
 (* ---------- container member order: ObjectStore filled member by member ---------- *)
 Theorem member_order_irrelevant : forall (B O : Type) (ms1 ms2 : list (member B O)), Permutation ms1 ms2 ->
